@@ -529,6 +529,33 @@ class SymNp:
             return tm.FALSE
         return self._real.isnan(a)
 
+    def zeros_like(self, a, *args, **kw):
+        if isinstance(a, AVec):
+            return AVec.zero()
+        if isinstance(a, T):
+            return tm.ZERO
+        return self._real.zeros_like(a, *args, **kw)
+
+    def _sqdist(self, a, b):
+        d = a - b
+        return (d @ d) if isinstance(d, AVec) else tm.lift(d) * tm.lift(d)
+
+    def allclose(self, a, b, *args, **kw):
+        """tolerance comparison of abstract values: an unconstrained verdict, except that equal arguments are close
+        (the tolerances are non-negative); in particular it may hold for arguments that differ"""
+        if any(isinstance(v, (AVec, T)) for v in (a, b)):
+            c = cur().newvar('allclose', BOOL)
+            assume(tm.implies(tm.eq(self._sqdist(a, b), tm.ZERO), c))
+            return c
+        return self._real.allclose(a, b, *args, **kw)
+
+    isclose = allclose
+
+    def array_equal(self, a, b, *args, **kw):
+        if any(isinstance(v, (AVec, T)) for v in (a, b)):
+            return tm.eq(self._sqdist(a, b), tm.ZERO)
+        return self._real.array_equal(a, b, *args, **kw)
+
     def sum(self, a, *args, **kw):
         return self._real.sum(a, *args, **kw)
 
